@@ -24,6 +24,9 @@ import (
 type cliResult struct {
 	createErr error
 	syms      []viol
+	raw       []rawTable // SQLite's own catalogue of db0
+	created   []string   // tables `schema inspect --format '{{ sql . }}'` creates
+	hasDump   bool
 }
 
 func fileDB(path string) *sql.DB {
@@ -37,14 +40,22 @@ func fileDB(path string) *sql.DB {
 
 const synced = "Schemas are synced, no changes to be made."
 
-func cliLoop(dir, script, history string) *cliResult {
+func cliLoop(dir, script, history string, post []string) *cliResult {
 	r := &cliResult{}
 	os.MkdirAll(dir, 0o755)
 	db0 := fileDB(filepath.Join(dir, "db0"))
 	r.createErr = execScript(db0, script)
+	for _, p := range post {
+		if r.createErr == nil {
+			_, r.createErr = db0.Exec(p)
+		}
+	}
 	if r.createErr != nil {
 		db0.Close()
 		return r
+	}
+	if strings.HasPrefix(history, "dangling-") {
+		history = "" // the history is part of the creation
 	}
 	add := func(c, m string) { r.syms = append(r.syms, viol{c, short(m, 300)}) }
 	insp := func(extra ...string) clirun.Result {
@@ -61,6 +72,7 @@ func cliLoop(dir, script, history string) *cliResult {
 	raw0 := []string{}
 	if raw, err := rawCatalogue(db0); err == nil {
 		raw0 = rawCanon(raw, false)
+		r.raw = raw
 	}
 	db0.Close()
 	rawOf := func(name string) []string {
@@ -76,45 +88,28 @@ func cliLoop(dir, script, history string) *cliResult {
 	if history != "" && history != "fresh" && before.Exit == 0 && h1.Exit == 0 && before.Stdout != h1.Stdout {
 		add("history-unstable", "`schema inspect` prints different HCL before / after "+history)
 	}
+	hclOK := true
 	if h1.Exit != 0 {
-		add("inspect-error", h1.Stderr)
-		return r
-	}
-	h2 := insp()
-	if h2.Stdout != h1.Stdout {
-		add("hcl-unstable", "second `schema inspect` prints different HCL")
-	}
-	os.WriteFile(filepath.Join(dir, "s.hcl"), []byte(h1.Stdout), 0o644)
-	ap := clirun.Run(dir, nil, "schema", "apply", "--url", "sqlite://db1", "--to", "file://s.hcl", "--auto-approve")
-	if ap.Exit != 0 {
-		if strings.Contains(ap.Stderr, "Error: ") && !strings.Contains(ap.Stderr+ap.Stdout, "executing statement") && !strings.Contains(ap.Stderr+ap.Stdout, "create ") {
-			add("hcl-eval-error", ap.Stderr)
+		if strings.Contains(h1.Stderr, "error calling MarshalHCL") {
+			// the inspection worked, its HCL export failed: the SQL export is still examined
+			add("hcl-marshal-error", h1.Stderr)
+			hclOK = false
 		} else {
-			add("hcl-apply-error", ap.Stderr+" "+ap.Stdout)
-		}
-	} else {
-		d1 := clirun.Run(dir, nil, "schema", "diff", "--from", "sqlite://db0", "--to", "sqlite://db1")
-		d2 := clirun.Run(dir, nil, "schema", "diff", "--from", "sqlite://db1", "--to", "sqlite://db0")
-		if d1.Exit != 0 || d2.Exit != 0 || strings.TrimSpace(d1.Stdout) != synced || strings.TrimSpace(d2.Stdout) != synced {
-			add("hcl-db-diff", "db0->db1: "+d1.Stdout+d1.Stderr+" ; db1->db0: "+d2.Stdout+d2.Stderr)
-		}
-		if d := firstDiff(raw0, rawOf("db1")); d != "" {
-			add("hcl-raw-catalogue", d)
+			add("inspect-error", h1.Stderr)
+			return r
 		}
 	}
-	// the HCL export as a desired state normalised on a dev database (sql/internal/sqlx/dev.go)
-	if ap.Exit == 0 {
-		dev := "sqlite://dev?mode=memory"
-		v1 := clirun.Run(dir, nil, "schema", "diff", "--from", "file://s.hcl", "--to", "sqlite://db0", "--dev-url", dev)
-		v2 := clirun.Run(dir, nil, "schema", "diff", "--from", "sqlite://db0", "--to", "file://s.hcl", "--dev-url", dev)
-		if v1.Exit != 0 || v2.Exit != 0 || strings.TrimSpace(v1.Stdout) != synced || strings.TrimSpace(v2.Stdout) != synced {
-			add("hcl-db-diff", "dev-url: hcl->db0: "+v1.Stdout+v1.Stderr+" ; db0->hcl: "+v2.Stdout+v2.Stderr)
-		}
+	if hclOK {
+		r.hclPart(dir, h1, insp, raw0, rawOf, add)
 	}
 	q1 := insp("--format", "{{ sql . }}")
 	if q1.Exit != 0 {
 		add("sql-plan-error", q1.Stderr)
 		return r
+	}
+	r.created, r.hasDump = createdTables(q1.Stdout), r.raw != nil
+	if r.hasDump && strings.Join(r.created, "\x00") != strings.Join(rawNames(r.raw), "\x00") {
+		add("sql-tables", fmt.Sprintf("the SQL export creates %q, the database holds %q", r.created, rawNames(r.raw)))
 	}
 	q2 := insp("--format", "{{ sql . }}")
 	if q2.Stdout != q1.Stdout {
@@ -158,6 +153,41 @@ func cliLoop(dir, script, history string) *cliResult {
 	return r
 }
 
+// hclPart: the HCL export applied to db1 and compared.
+func (r *cliResult) hclPart(dir string, h1 clirun.Result, insp func(...string) clirun.Result, raw0 []string, rawOf func(string) []string, add func(c, m string)) {
+	h2 := insp()
+	if h2.Stdout != h1.Stdout {
+		add("hcl-unstable", "second `schema inspect` prints different HCL")
+	}
+	os.WriteFile(filepath.Join(dir, "s.hcl"), []byte(h1.Stdout), 0o644)
+	ap := clirun.Run(dir, nil, "schema", "apply", "--url", "sqlite://db1", "--to", "file://s.hcl", "--auto-approve")
+	if ap.Exit != 0 {
+		if strings.Contains(ap.Stderr, "Error: ") && !strings.Contains(ap.Stderr+ap.Stdout, "executing statement") && !strings.Contains(ap.Stderr+ap.Stdout, "create ") {
+			add("hcl-eval-error", ap.Stderr)
+		} else {
+			add("hcl-apply-error", ap.Stderr+" "+ap.Stdout)
+		}
+	} else {
+		d1 := clirun.Run(dir, nil, "schema", "diff", "--from", "sqlite://db0", "--to", "sqlite://db1")
+		d2 := clirun.Run(dir, nil, "schema", "diff", "--from", "sqlite://db1", "--to", "sqlite://db0")
+		if d1.Exit != 0 || d2.Exit != 0 || strings.TrimSpace(d1.Stdout) != synced || strings.TrimSpace(d2.Stdout) != synced {
+			add("hcl-db-diff", "db0->db1: "+d1.Stdout+d1.Stderr+" ; db1->db0: "+d2.Stdout+d2.Stderr)
+		}
+		if d := firstDiff(raw0, rawOf("db1")); d != "" {
+			add("hcl-raw-catalogue", d)
+		}
+	}
+	// the HCL export as a desired state normalised on a dev database (sql/internal/sqlx/dev.go)
+	if ap.Exit == 0 {
+		dev := "sqlite://dev?mode=memory"
+		v1 := clirun.Run(dir, nil, "schema", "diff", "--from", "file://s.hcl", "--to", "sqlite://db0", "--dev-url", dev)
+		v2 := clirun.Run(dir, nil, "schema", "diff", "--from", "sqlite://db0", "--to", "file://s.hcl", "--dev-url", dev)
+		if v1.Exit != 0 || v2.Exit != 0 || strings.TrimSpace(v1.Stdout) != synced || strings.TrimSpace(v2.Stdout) != synced {
+			add("hcl-db-diff", "dev-url: hcl->db0: "+v1.Stdout+v1.Stderr+" ; db0->hcl: "+v2.Stdout+v2.Stderr)
+		}
+	}
+}
+
 func runCLI(w *out.W, tier string) {
 	w.Rule = "a case is non-trivial when SQLite accepted the schema and `atlas schema inspect` ran; distinct by feature-tag set"
 	n := 30
@@ -194,6 +224,17 @@ func runCLI(w *out.W, tier string) {
 		c.script = strings.Join(st.script(a), ";\n") + ";"
 		cases = append(cases, &cc{lc: c})
 	}
+	// dangling references: the whole grid once (thorough: 8 variants)
+	nd := 1
+	if tier == "thorough" {
+		nd = 5
+	}
+	for v := 0; v < nd; v++ {
+		for gi, d := range danglingGrid() {
+			r := rng.New(seed*0x9E3779B97F4A7C15 ^ uint64(v*100+gi)*0xD1B54A32D192ED03 ^ 0xDAC)
+			cases = append(cases, &cc{lc: newDanglingCase(fmt.Sprintf("cd%02d_%02d", v, gi), "hand", r, d, v+gi%2)})
+		}
+	}
 	var wg sync.WaitGroup
 	sem := make(chan struct{}, 12)
 	for i, c := range cases {
@@ -202,7 +243,7 @@ func runCLI(w *out.W, tier string) {
 		go func(i int, c *cc) {
 			defer wg.Done()
 			defer func() { <-sem }()
-			c.res = cliLoop(filepath.Join(base, fmt.Sprintf("k%d", i)), c.lc.script, c.lc.history)
+			c.res = cliLoop(filepath.Join(base, fmt.Sprintf("k%d", i)), c.lc.script, c.lc.history, c.lc.post)
 			if c.res.createErr == nil && len(c.res.syms) > 0 {
 				c.lc.run() // in-process loop + attribution
 			}
@@ -219,7 +260,12 @@ func runCLI(w *out.W, tier string) {
 		if c.lc.ast != nil {
 			tags = c.lc.ast.tags()
 		}
-		w.ImplOnly(c.lc.id, fmt.Sprintf("cli viol=%d %s", len(c.res.syms), short(c.lc.script, 300)))
+		if c.res.hasDump {
+			cl, ob := dumpTie(c.res.raw, c.res.created)
+			w.Case(c.lc.id, cl, []string{ob})
+		} else {
+			w.ImplOnly(c.lc.id, fmt.Sprintf("cli viol=%d %s", len(c.res.syms), short(c.lc.script, 300)))
+		}
 		w.NonTrivial(tags + "|" + c.lc.history + "|" + c.lc.id[:1])
 		w.Count("history:" + c.lc.history)
 		for _, v := range c.res.syms {
@@ -234,12 +280,14 @@ func runCLI(w *out.W, tier string) {
 					"hcl-apply-error":   {"hcl-apply-error", "hcl-eval-error", "hcl-marshal-error"},
 					"hcl-eval-error":    {"hcl-eval-error", "hcl-apply-error", "hcl-marshal-error"},
 					"inspect-error":     {"inspect-error", "hcl-marshal-error"},
+					"hcl-marshal-error": {"hcl-marshal-error", "hcl-eval-error"},
 					"sql-plan-error":    {"sql-plan-error"},
 					"sql-exec-error":    {"sql-exec-error"},
 					"sql-diff":          {"sql-diff"},
 					"hcl-raw-catalogue": {"hcl-raw-catalogue"},
 					"sql-raw-catalogue": {"sql-raw-catalogue"},
 					"history-unstable":  {"history-unstable"},
+					"sql-tables":        {"sql-tables"},
 				}
 				for _, k := range alias[v.class] {
 					if inproc[k] {
@@ -253,7 +301,7 @@ func runCLI(w *out.W, tier string) {
 				}
 			}
 			w.Count("viol:" + cause + "/cli-" + v.class)
-			w.Violation(c.lc.id, cause, fmt.Sprintf("symptom=cli-%s how=cli history=%s %s ;; sql=%s", v.class, c.lc.history, v.msg, short(c.lc.script, 700)))
+			w.Violation(c.lc.id, cause, fmt.Sprintf("symptom=cli-%s how=cli history=%s %s ;; sql=%s", v.class, c.lc.history, v.msg, short(c.lc.fullScript(), 700)))
 		}
 	}
 }
